@@ -856,8 +856,12 @@ ExitStatus Builder::Build(string* err) {
         *err = "subcommand failed";
     } else if (failures_allowed < config_.failures_allowed)
       *err = "cannot make progress due to previous errors";
-    else
+    else {
+      // Nothing failed and yet wanted edges are left that can never become
+      // ready: do not let that pass for a successful build.
       *err = "stuck [this is a bug]";
+      SetFailureCode(ExitFailure);
+    }
 
     return GetExitCode();
   }
